@@ -16,6 +16,7 @@ type c04Case struct {
 	N     int    `json:"n"`
 	B     int    `json:"b"` // second amount for the additive law
 	Feats []Feat `json:"feats"`
+	GB    bool   `json:"genbank,omitempty"` // the sequence is a seqio.GenBank record instead of a gts.New value
 }
 
 func mod(x, L int) int { return ((x % L) + L) % L }
@@ -111,7 +112,12 @@ func sameFeatureMeaning(what string, a, b gts.FeatureSlice, L int, circular bool
 func c04Check(c c04Case) *Violation {
 	L := c.L
 	orig := idBytes(0, L)
-	mk := func() gts.Sequence { return gts.New(nil, featsToGts(c.Feats), append([]byte(nil), orig...)) }
+	mk := func() gts.Sequence {
+		if c.GB {
+			return c02Carry(1, "REC", c.Feats, orig)
+		}
+		return gts.New(nil, featsToGts(c.Feats), append([]byte(nil), orig...))
+	}
 	rot := func(s gts.Sequence, n int) (out gts.Sequence, v *Violation) {
 		if pi := guard(func() { out = gts.Rotate(s, n) }); pi != nil {
 			return nil, panicViolation(fmt.Sprintf("Rotate(%d)", n), pi)
@@ -288,7 +294,7 @@ func c04Gen(t *rapid.T) c04Case {
 	L := drawLen(t, 1, 14, "L")
 	n := rapid.IntRange(-3*L, 3*L).Draw(t, "n")
 	b := rapid.IntRange(-3*L, 3*L).Draw(t, "b")
-	c := c04Case{L: L, N: n, B: b}
+	c := c04Case{L: L, N: n, B: b, GB: rapid.IntRange(0, 3).Draw(t, "genbank") == 0}
 	o := newOrigin(L, n)
 	cfg := locCfg{L: L, Hot: hotAround(L, o, 0), MaxDepth: 3, MaxParts: scopeParts(4), Ambig: true, Sites: true}
 	c.Feats = addTwins(t, genFeats(t, cfg, drawCount(t, 0, 4, 9, "nfeat"), "f", true), "f")
